@@ -1,12 +1,16 @@
 import PyxModel.Sexp
 import PyxModel.Oal.LexGen
 import PyxModel.Oal.LexClass
+import PyxModel.Oal.LexRx
+import PyxModel.RegexSexp
 import Gen.OalTrack
 
 /-! driver commands of property C13
 
     (c13-lex "lexdata" (i j) (i j) ...)
-      -> ((tokens) (spans))
+      -> ((tokens) (spans) (tokens-rx))       tokens-rx: the token stream of `lexRx` (generic regex engine on the
+         regex ASTs generated from the rule docstrings), same format as tokens; `skipped` for a text longer than
+         rxLimit, `unknown-regex` when the table has a regex the model does not know (see rxKnown)
          tokens: (KIND "lexeme" start stop line endLine) for every token the lexer model returns
          spans : for each pair (i j) of token indexes, what `set_positional_info` records for a node whose
                  first token is token i and whose last token is token j:
@@ -17,6 +21,11 @@ import Gen.OalTrack
       -> for each pair of lexical units `tightOk u v` as T / F (`bad` for an undecodable unit); units are written
          (word "s") (number "s") (fraction "s") (string "s") (ticked "s") (endfor "s") (endif "s") (endwhile "s")
          (lit i) (div) (ns "n"), together with the unit's text and tokens:  (T "text u" "text v" ((KIND "lexeme") ...))
+
+    (c13-regex ast "text" "text" ...)
+      -> for each text the length of the prefix the generic regex matcher (PyxModel/Regex.lean) matches for the AST
+         (format: PyxModel/RegexSexp.lean), or `none`; `bad-ast` for an undecodable AST.  Compared with Python's
+         `re.match(source, text)` for random regex sources whose AST translator/regex_ast.py computed.
 
     (c13-grammar)
       -> the production table generated from the p_* functions (Gen/OalTrack.lean), one entry per production:
@@ -66,6 +75,17 @@ def tightSexp : Sexp → Sexp
 def prodSexp (p : Pyx.OalTrack.Prod) : Sexp :=
   list [str p.fn, str p.lhsName, ofNat p.rhs.length, str (" ".intercalate p.rhsNames), ofBool p.tracked]
 
+/-- the generic regex engine is run on texts up to this length (its cost on unterminated-comment families is
+    quadratic with a large constant; longer texts are timing cases of the real lexer) -/
+def rxLimit : Nat := 2500
+
+/-- the generic engine is run on the rule table only while every regex of the table is one of the modelled ones: on
+    another regex it may - faithfully, like `re` - backtrack exponentially (nested repetitions, overlapping
+    alternatives in a repetition), which would hang the driver instead of reporting.  A table with an unknown regex
+    already breaks `rules_known` and `scanner_is_regex`; the token-rx answer is then `unknown-regex`, which disagrees
+    with the implementation's stream on every case. -/
+def rxKnown : Bool := rulesKnown Gen.OalLex.rules
+
 def handle : List Sexp → Option Sexp
   | [sym "c13-grammar"] => some (list (Gen.OalTrack.prods.map prodSexp))
   | sym "c13-tight" :: pairs => some (list (pairs.map tightSexp))
@@ -73,7 +93,13 @@ def handle : List Sexp → Option Sexp
     let cs := text.toList
     let toks := lex cs
     let arr := toks.toArray
-    some (list [list (toks.map tokSexp), list (spans.map (spanSexp cs arr))])
+    some (list [list (toks.map tokSexp), list (spans.map (spanSexp cs arr)), (if !rxKnown then sym "unknown-regex" else if cs.length ≤ rxLimit then list ((lexRx cs).map tokSexp) else sym "skipped")])
+  | sym "c13-regex" :: ast :: texts =>
+    match Pyx.Regex.Regex.ofSexp ast with
+    | some r => some (list (texts.map fun t => match t with
+        | str s => ofOptNat (Pyx.Regex.Regex.matchPrefix r s.toList)
+        | _ => sym "bad-text"))
+    | none => some (sym "bad-ast")
   | _ => none
 
 end Pyx.Driver.C13
